@@ -81,6 +81,140 @@ Example C05_history_nonvacuous :
   exists r, run 0 (@empty N) ops = Ok r /\ r_inner r = [1].
 Proof. exact history_nonvacuous. Qed.
 
+(* ---------------------------------------------------------------------------------------- *)
+(* Resync to /repo HEAD (19d4f5b, 3140dd1): weaker preconditions and totality                *)
+(* ---------------------------------------------------------------------------------------- *)
+
+(* from_sparse no longer needs its cells sorted by row: same conclusion as
+   C05_from_sparse_spec for cells in any order *)
+Theorem C05_from_sparse_spec_unsorted :
+  forall (T : Type) (d : T) (cs : list (pos * T)),
+    pre_sparse cs ->
+    exists r, from_sparse d cs = Ok r /\ Wf r /\
+      rect r = tight_bbox (map fst cs) /\
+      forall q, get_value r q = if in_rect r q then Some (last_write d cs q) else None.
+Proof. exact from_sparse_spec_unsorted. Qed.
+
+(* Range::new / Range::range count their cells in usize: the bound is usize::MAX cells *)
+Theorem C05_new_spec_usize :
+  forall (T : Type) (d : T) (s e : pos),
+    le2 s e -> box_cells s e <= U64MAX ->
+    exists r, new d s e = Ok r /\ Wf r /\ rect r = Some (s, e) /\
+      forall q, get_value r q = if in_box s e q then Some d else None.
+Proof. exact new_spec_usize. Qed.
+
+Theorem C05_window_spec_usize :
+  forall (T : Type) (d : T) (r : range T) (s e : pos),
+    Wf r -> le2 s e -> box_cells s e <= U64MAX ->
+    exists w, window d r s e = Ok w /\ Wf w /\ rect w = Some (s, e) /\
+      forall q, get_value w q = if in_box s e q then Some (cell_or d r q) else None.
+Proof. exact window_spec_usize. Qed.
+
+(* histories under the preconditions of the current code: from_sparse cells in any order;
+   every state is well formed and has fewer than 2^32 rows and columns (the domain on which
+   width()/height() of the real code do not overflow u32) *)
+Theorem C05_history_wf_head :
+  forall (T : Type) (d : T) (ops : list (op T)) (r0 : range T),
+    Wf r0 -> fits32 r0 -> pre_head_all d r0 ops ->
+    exists r, run d r0 ops = Ok r /\ Wf r /\ fits32 r.
+Proof. exact range_wf_history_head. Qed.
+
+(* the old preconditions imply the new ones, operation by operation *)
+Theorem C05_pre_implies_pre_head :
+  forall (T : Type) (r : range T) (o : op T), pre r o -> pre_head r o.
+Proof. exact pre_pre_head. Qed.
+
+(* --- totality (for C06) --- *)
+
+(* from_sparse: no panic on any list of cells, sorted or not, no hypothesis at all.  What is
+   left outside the model is the allocation of [requested_from_sparse cs] cells (next theorems). *)
+Theorem C05_no_panic_from_sparse :
+  forall (T : Type) (d : T) (cs : list (pos * T)), from_sparse d cs <> Panic.
+Proof. exact from_sparse_no_panic. Qed.
+
+Theorem C05_from_sparse_total :
+  forall (T : Type) (d : T) (cs : list (pos * T)),
+    exists r, from_sparse d cs = Ok r /\
+      N.of_nat (length (r_inner r)) = requested_from_sparse cs /\
+      (cs <> [] -> (r_start r, r_end r) = sparse_bounds cs).
+Proof. exact from_sparse_total. Qed.
+
+(* the requested capacity is the area of the bounding box, not bounded by any function of the
+   number of cells: two cells request any square up to usize::MAX (finding
+   lib.rs::from_sparse::alloc: the real code then panics "capacity overflow" or aborts) *)
+Theorem C05_from_sparse_requested_unbounded :
+  forall n : N, n <= U32MAX ->
+    exists cs : list (pos * N),
+      length cs = 2%nat /\
+      (forall c, In c cs -> fst (fst c) <= U32MAX /\ snd (fst c) <= U32MAX) /\
+      requested_from_sparse cs = N.min ((n + 1) * (n + 1)) U64MAX.
+Proof. exact requested_from_sparse_unbounded. Qed.
+
+Theorem C05_refuted_from_sparse_alloc :
+  exists cs : list (pos * N),
+    length cs = 2%nat /\
+    (forall c, In c cs -> fst (fst c) <= U32MAX /\ snd (fst c) <= U32MAX) /\
+    requested_from_sparse cs = U64MAX.
+Proof. exact from_sparse_alloc_refuted. Qed.
+
+(* Range::new: exactly two ways to panic are left — corners not ordered componentwise (the
+   documented precondition) and the full 2^32 x 2^32 grid (usize product overflow) *)
+Theorem C05_no_panic_new :
+  forall (T : Type) (d : T) (s e : pos),
+    le2 s e -> box_cells s e <= U64MAX -> new d s e <> Panic.
+Proof. exact new_no_panic. Qed.
+
+Theorem C05_new_panic_iff :
+  forall (T : Type) (d : T) (s e : pos),
+    new d s e = Panic <-> ~ (le2 s e /\ box_cells s e <= U64MAX).
+Proof. exact new_panic_iff. Qed.
+
+Theorem C05_new_requested :
+  forall (T : Type) (d : T) (s e : pos) (r : range T), new d s e = Ok r ->
+    N.of_nat (length (r_inner r)) = requested_new s e /\ requested_new s e = box_cells s e.
+Proof. exact new_requested. Qed.
+
+(* Range::range panics exactly when its Range::new does (on a well-formed source) *)
+Theorem C05_no_panic_window :
+  forall (T : Type) (d : T) (r : range T) (s e : pos),
+    Wf r -> le2 s e -> box_cells s e <= U64MAX -> window d r s e <> Panic.
+Proof. exact window_no_panic. Qed.
+
+Theorem C05_window_panic_iff :
+  forall (T : Type) (d : T) (r : range T) (s e : pos), Wf r ->
+    (window d r s e = Panic <-> ~ (le2 s e /\ box_cells s e <= U64MAX)).
+Proof. exact window_panic_iff. Qed.
+
+(* set_value: the code is unchanged; it needs the documented "at or beyond the start corner"
+   and an offset from the start corner below u32::MAX in both directions *)
+Theorem C05_no_panic_set_value :
+  forall (T : Type) (d : T) (r : range T) (p : pos) (v : T),
+    Wf r -> pre r (OSetValue p v) -> set_value d r p v <> Panic.
+Proof. exact set_value_no_panic. Qed.
+
+Theorem C05_set_value_panics_before_start :
+  forall (T : Type) (d : T) (r : range T) (p : pos) (v : T),
+    is_empty r = false -> ~ le2 (r_start r) p -> set_value d r p v = Panic.
+Proof. exact set_value_panics_before_start. Qed.
+
+(* non-vacuity of the new hypotheses *)
+Example C05_unsorted_nonvacuous :
+  pre_sparse [((4, 1), 6); ((2, 3), 5); ((2, 1), 4); ((3, 0), 0)] /\
+  ~ sorted_by_row [((4, 1), 6); ((2, 3), 5); ((2, 1), 4); ((3, 0), 0)].
+Proof. exact from_sparse_unsorted_pre_ex. Qed.
+
+Example C05_history_head_nonvacuous :
+  let ops := [OFromSparse [((4, 1), 6); ((2, 3), 5); ((2, 1), 4)]; OSetValue (5, 5) 7;
+              OWindow (0, 0) (3, 3); ONew (1, 1) (2, 3); OEmpty; OSetValue (3, 3) 1] in
+  Wf (@empty N) /\ fits32 (@empty N) /\ pre_head_all 0 (@empty N) ops /\
+  exists r, run 0 (@empty N) ops = Ok r /\ r_inner r = [1].
+Proof. exact history_head_nonvacuous. Qed.
+
+Example C05_new_usize_nonvacuous :
+  le2 (0, 0) (70000, 70000) /\ box_cells (0, 0) (70000, 70000) <= U64MAX /\
+  ~ box_cells (0, 0) (70000, 70000) <= U32MAX.
+Proof. exact new_usize_pre_ex. Qed.
+
 Check C05_history_wf :
   forall (T : Type) (d : T) (ops : list (op T)) (r0 : range T),
     Wf r0 -> pre_all d r0 ops -> exists r, run d r0 ops = Ok r /\ Wf r.
@@ -110,3 +244,28 @@ Print Assumptions C05_set_value_spec.
 Print Assumptions C05_from_sparse_spec.
 Print Assumptions C05_window_spec.
 Print Assumptions C05_accessors_agree.
+Check C05_no_panic_from_sparse :
+  forall (T : Type) (d : T) (cs : list (pos * T)), from_sparse d cs <> Panic.
+Check C05_from_sparse_spec_unsorted :
+  forall (T : Type) (d : T) (cs : list (pos * T)),
+    pre_sparse cs ->
+    exists r, from_sparse d cs = Ok r /\ Wf r /\
+      rect r = tight_bbox (map fst cs) /\
+      forall q, get_value r q = if in_rect r q then Some (last_write d cs q) else None.
+
+Print Assumptions C05_from_sparse_spec_unsorted.
+Print Assumptions C05_new_spec_usize.
+Print Assumptions C05_window_spec_usize.
+Print Assumptions C05_history_wf_head.
+Print Assumptions C05_pre_implies_pre_head.
+Print Assumptions C05_no_panic_from_sparse.
+Print Assumptions C05_from_sparse_total.
+Print Assumptions C05_from_sparse_requested_unbounded.
+Print Assumptions C05_refuted_from_sparse_alloc.
+Print Assumptions C05_no_panic_new.
+Print Assumptions C05_new_panic_iff.
+Print Assumptions C05_new_requested.
+Print Assumptions C05_no_panic_window.
+Print Assumptions C05_window_panic_iff.
+Print Assumptions C05_no_panic_set_value.
+Print Assumptions C05_set_value_panics_before_start.
